@@ -262,112 +262,6 @@ fn relation_d(ctx: &vh::explore::Ctx, stats: &mut Stats, depth: usize) {
 }
 
 
-/// Two traits of one module whose generic methods have the same name: distinct methods all the same.
-mod twins {
-    use unimock::*;
-
-    #[unimock(api = TwinAMock)]
-    pub trait TwinA {
-        fn get<T: core::fmt::Debug + Copy + 'static>(&self, x: T) -> u32;
-    }
-
-    #[unimock(api = TwinBMock)]
-    pub trait TwinB {
-        fn get<T: core::fmt::Debug + Copy + 'static>(&self, x: T) -> u32;
-    }
-}
-
-fn relation_e(ctx: &vh::explore::Ctx, stats: &mut Stats) {
-    use twins::*;
-    // which of the three methods (A::get::<u8>, B::get::<u8>, A::get::<u16>) are configured, in which
-    // clause order, ordered or unordered; then every call sequence of length 2 over the three
-    let orders: [[usize; 3]; 6] = [[0, 1, 2], [0, 2, 1], [1, 0, 2], [1, 2, 0], [2, 0, 1], [2, 1, 0]];
-    for subset in 1u8..8 {
-        for order in orders {
-            for b_ordered in [false, true] {
-                let build = || {
-                    let mut c = unimock::verif::DynClause::new();
-                    for k in order {
-                        if subset & (1 << k) == 0 {
-                            continue;
-                        }
-                        match k {
-                            0 => c.push(TwinAMock::get.with_types::<u8>().each_call(matching!(_)).returns(1u32)),
-                            1 if b_ordered => c.push(TwinBMock::get.with_types::<u8>().next_call(matching!(_)).returns(2u32).n_times(2)),
-                            1 => c.push(TwinBMock::get.with_types::<u8>().each_call(matching!(_)).returns(2u32)),
-                            _ => c.push(TwinAMock::get.with_types::<u16>().each_call(matching!(_)).returns(3u32)),
-                        }
-                    }
-                    Unimock::new(c)
-                };
-                for first in 0..3usize {
-                    for second in 0..3usize {
-                        ctx.tick();
-                        stats.add("e_cells", 1);
-                        stats.add("traces_validated_against_impl", 1);
-                        let label = format!("configured {subset:03b} in clause order {order:?}, TwinB::get {}", if b_ordered { "ordered" } else { "unordered" });
-                        let u = match catch(build) {
-                            Ok(u) => u,
-                            Err(msg) => {
-                                ctx.violation("e:same-named-generic-methods", &format!("{label}: construction panicked: {msg}"), J::obj().set("relation", "e"));
-                                continue;
-                            }
-                        };
-                        let mut called = [false; 3];
-                        for k in [first, second] {
-                            stats.add("transitions", 1);
-                            let got = match k {
-                                0 => catch(|| <Unimock as TwinA>::get::<u8>(&u, 0u8)),
-                                1 => catch(|| <Unimock as TwinB>::get::<u8>(&u, 0u8)),
-                                _ => catch(|| <Unimock as TwinA>::get::<u16>(&u, 0u16)),
-                            };
-                            let name = ["TwinA::get", "TwinB::get", "TwinA::get"][k];
-                            let ok = if subset & (1 << k) != 0 {
-                                called[k] = true;
-                                got == Ok([1u32, 2, 3][k])
-                            } else {
-                                matches!(&got, Err(msg) if msg.contains(name) && msg.contains("No mock implementation found"))
-                            };
-                            stats.note("e_outcomes", format!("{k}:{:?}", got.as_ref().map(|v| *v).map_err(|m| vh::model::classify(m))));
-                            if !ok {
-                                ctx.violation(
-                                    "e:same-named-generic-methods",
-                                    &format!("{label}: call of method {k} ({name}) gave {got:?}"),
-                                    J::obj().set("relation", "e").set("label", label.as_str()),
-                                );
-                            }
-                        }
-                        // the verdict names exactly the configured methods that were never called
-                        // (and TwinB's unmet exact count when it is ordered)
-                        let erroneous = [first, second].iter().any(|k| subset & (1 << k) == 0);
-                        let verdict = catch(move || drop(u));
-                        if !erroneous {
-                            let mut want_lines = 0;
-                            for k in 0..3 {
-                                if subset & (1 << k) != 0 && !called[k] {
-                                    want_lines += 1;
-                                }
-                            }
-                            let b_calls = [first, second].iter().filter(|k| **k == 1).count();
-                            if subset & 2 != 0 && b_ordered && b_calls != 2 {
-                                want_lines += 1;
-                            }
-                            let lines = verdict.as_ref().err().map(|m| m.lines().count()).unwrap_or(0);
-                            if lines != want_lines {
-                                ctx.violation(
-                                    "e:same-named-generic-methods",
-                                    &format!("{label}, calls {first},{second}: verification gave {verdict:?}, expected {want_lines} line(s)"),
-                                    J::obj().set("relation", "e").set("label", label.as_str()),
-                                );
-                            }
-                        }
-                    }
-                }
-            }
-        }
-    }
-}
-
 fn main() {
     silence_panics();
     let ctx: &'static vh::explore::Ctx = Box::leak(Box::new(vh::explore::Ctx::from_args("C18")));
@@ -563,7 +457,7 @@ fn main() {
     relation_d(ctx, &mut stats, if quick { 2 } else { 3 });
 
     // (e) same-named generic methods of two traits in one module
-    relation_e(ctx, &mut stats);
+    vh::twins::cells(ctx, &mut stats, "e:same-named-generic-methods");
 
     if stats.get("a_pairs") == 0 || stats.get("b_routings") == 0 || stats.get("c_interleavings") == 0 || stats.set_len("a_outcomes") < 10 || stats.set_len("d_outcomes") < 3 {
         vacuous("vacuous exploration in C18");
